@@ -1967,3 +1967,19 @@ Proof.
     + eapply Permutation_in; eauto.
     + eapply Permutation_in; [apply Permutation_sym; exact P | exact Hp].
 Qed.
+
+(* ------------------------------------------------------------------ Merge succeeds on compatible
+   int64 inputs *)
+Theorem merge_total_lemma : forall p0 rest,
+  compat_all p0 rest = CompatOk -> Forall vals_ok (p0 :: rest) -> exists q, merge (p0 :: rest) = MOk q.
+Proof.
+  intros p0 rest C V. unfold merge. cbn [merge_fuel].
+  destruct (merge_pass (p0 :: rest)) as [p1| | |] eqn:E1;
+    try (unfold merge_pass in E1; rewrite C in E1; discriminate).
+  destruct (existsb is_zero_sample (p_sample p1)); [|eauto].
+  destruct (merge_pass [p1]) as [p2| | |] eqn:E2; try (unfold merge_pass in E2; cbn in E2; discriminate).
+  rewrite (second_pass_no_zero p1 p2); eauto.
+  - eapply merge_pass_ok; eauto.
+  - eapply merge_pass_keys; eauto.
+  - eapply merge_pass_vals; eauto.
+Qed.
